@@ -538,6 +538,10 @@ func deleteCred(uid types.Uid, authLvl auth.Level, cred *MsgCredClient) ([]strin
 		// This error should not be returned to user.
 		if utags, err := store.Users.UpdateTags(uid, nil, []string{cred.Method + ":" + cred.Value}, nil); err == nil {
 			tags = utags
+			if tags == nil {
+				// The last tag is gone: an empty list, not 'no change'.
+				tags = []string{}
+			}
 		} else {
 			logs.Warn.Println("delete cred: failed to update tags:", err)
 			tags = nil
